@@ -423,10 +423,11 @@ class Interp:
                 start, (s1, s2) = 1, vals
             if start <= 0:
                 raise QBError('illegal')
-            i = s1.find(s2, start - 1)
-            if start - 1 > len(s1):
-                i = -1
-            return i + 1
+            # INSTR is 0 when string1 is empty or start lies beyond its end (also for an empty string2); an empty string2 is
+            # otherwise found at start
+            if start - 1 >= len(s1):
+                return 0
+            return s1.find(s2, start - 1) + 1
         if f in ('LEFT$', 'RIGHT$'):
             n = conv(vals[1], '%')
             if n < 0:
